@@ -182,6 +182,54 @@ fn siblings(acc: &mut Acc, inst: i128, d: i128, offs: &[i32]) {
     }
 }
 
+/// Elapsed-time arithmetic on zone-aware values in a zone whose offset changes (chrono_mc::gfzone): every form lands on
+/// the exact instant (at the zone's offset there), whatever the wall clock does in between.
+fn changing_zone(acc: &mut Acc) {
+    use chrono_mc::gfzone::*;
+    let tz = GAPFOLD_2021;
+    for u in zone_starts(tz) {
+        for nano in [0u32, 999_999_999] {
+            let dt = tz.from_utc_datetime(&DateTime::from_timestamp(u, nano).unwrap().naive_utc());
+            for delta in [0i64, 1, 59, 1800, 3599, 3600, 3601, 5400, 7200, 86_399, 86_400, 90_000, 7 * 86_400, 217 * 86_400, 400 * 86_400] {
+                for neg in [false, true] {
+                    let td = TimeDelta::seconds(delta);
+                    let sd = std::time::Duration::from_secs(delta as u64);
+                    let t = if neg { u - delta } else { u + delta };
+                    let want = (t, nano, tz.offset_at(t));
+                    let key = |x: DateTime<Gz>| (x.naive_utc().and_utc().timestamp(), x.naive_utc().and_utc().timestamp_subsec_nanos(), x.offset().off);
+                    let got = guard(|| {
+                        let (mut a, mut b) = (dt, dt);
+                        if neg {
+                            a -= td;
+                            b -= sd;
+                            [dt.checked_sub_signed(td).map(key), Some(key(dt - td)), Some(key(dt - sd)), Some(key(a)), Some(key(b))]
+                        } else {
+                            a += td;
+                            b += sd;
+                            [dt.checked_add_signed(td).map(key), Some(key(dt + td)), Some(key(dt + sd)), Some(key(a)), Some(key(b))]
+                        }
+                    });
+                    acc.transitions += 5;
+                    if got != Ok([Some(want); 5]) {
+                        acc.violation("DateTime<zone>:elapsed-time", format!("[instant {} s .{:09} at offset {}] {} {} s in a zone with a skipped and a repeated hour [checked, operator, std Duration operator, assign, std Duration assign]", u, nano, dt.offset().off, if neg { "-" } else { "+" }, delta), format!("{:?}", want), format!("{:?}", got));
+                    } else {
+                        acc.hit(SIB);
+                    }
+                    // the distance back is the elapsed time, also across the offset change
+                    if let Ok([Some(_), ..]) = got {
+                        let r = if neg { dt - td } else { dt + td };
+                        acc.transitions += 1;
+                        let dist = [r.signed_duration_since(dt), r - dt, r.with_timezone(&chrono::Utc).signed_duration_since(dt)];
+                        if dist.iter().any(|d| delta_ns(*d) != (t - u) as i128 * NS) {
+                            acc.violation("DateTime<zone>:distance", format!("distance between instants {} and {} read in the changing zone", t, u), format!("{} s", t - u), format!("{:?}", dist));
+                        }
+                    }
+                }
+            }
+        }
+    }
+}
+
 /// the same instants through DateTime<FixedOffset> with different offsets
 fn step_dt(acc: &mut Acc, inst: i128, d: i128, offs: &[i32]) {
     let s = mk_ndt_inst(inst);
@@ -515,6 +563,9 @@ fn main() {
                     }
                 }
                 depth1.lock().unwrap().extend(out);
+            }
+            if u == 0 {
+                changing_zone(acc);
             }
             date_steps(acc, z, &durs, &counts);
             iterators(acc, z, if MAX_DAY - z < 2000 { usize::MAX } else { 800 }, if z - MIN_DAY < 2000 { usize::MAX } else { 800 });
